@@ -331,8 +331,55 @@ func (f *Form) norm() *Form {
 	if f.N.equal(f.D) {
 		f.N = polyConst(big.NewRat(1, 1))
 		f.D = polyConst(big.NewRat(1, 1))
+		return f
+	}
+	// cancel the common monomial content of numerator and denominator
+	g := map[string]int{}
+	first := true
+	for _, pl := range []*Poly{f.N, f.D} {
+		for _, t := range pl.t {
+			cur := map[string]int{}
+			for _, v := range t.m.vars {
+				cur[v.a] = v.p
+			}
+			if first {
+				g = cur
+				first = false
+				continue
+			}
+			for a, pw := range g {
+				if c, ok := cur[a]; !ok {
+					delete(g, a)
+				} else if c < pw {
+					g[a] = c
+				}
+			}
+		}
+	}
+	if len(g) > 0 {
+		f.N = f.N.divMono(g)
+		f.D = f.D.divMono(g)
+		if c, ok := f.D.constVal(); ok && c.Sign() != 0 && c.Cmp(big.NewRat(1, 1)) != 0 {
+			f.N = f.N.scale(new(big.Rat).Inv(c))
+			f.D = polyConst(big.NewRat(1, 1))
+		}
 	}
 	return f
+}
+
+// divMono divides every term by the monomial g (which must divide it).
+func (p *Poly) divMono(g map[string]int) *Poly {
+	q := newPoly()
+	for _, t := range p.t {
+		var vs []mvar
+		for _, v := range t.m.vars {
+			if pw := v.p - g[v.a]; pw > 0 {
+				vs = append(vs, mvar{v.a, pw})
+			}
+		}
+		q.addTerm(mkMono(vs), t.c)
+	}
+	return q
 }
 
 func (f *Form) Add(o *Form) *Form {
